@@ -150,6 +150,7 @@ func (w *reqResWriter) flushFragment(fragment *writableFragment) error {
 	}
 	select {
 	case <-w.mex.ctx.Done():
+		w.mex.onCtxErr(w.mex.ctx.Err())
 		return w.failed(GetContextError(w.mex.ctx.Err()))
 	case <-w.mex.errCh.c:
 		return w.failed(w.mex.errCh.err)
